@@ -64,7 +64,7 @@ BUILT = {
    'Interleavings of the real goroutines are whatever the Go scheduler and -race produce in the run: sampled, not enumerated (DESIGN.md section 8). Trusts TLC and tv.',
    'TLA+ trace validation with a first-run history variable + race-detector build + fresh-process reruns (exploration of schedules)', '6 C09'),
  'C20': ('model_checking',
-   'TLC evaluates the wrapper machine (BklCli!WrapOp) on every argument vector of length <= MaxArgs over 16 argument kinds on a fixed directory, asserts OnlyBklFilesChange / UntouchedByteForByte / FailingFileMeansNoExec, and every vector is run through the real bklb (symlinked as probeb) or kubectl-bkl with a probe program on PATH that records its argv and the content of file arguments. Random directories (layers in mixed formats) with random vectors of 0-8 arguments are run the same way and validated by TLC; substituted files are decoded by the independent decoder (Python json / PyYAML core schema / tomllib) of the argument\'s extension and compared with the evaluation computed by the specification.',
+   'TLC evaluates the wrapper machine (BklCli!WrapOp) on every argument vector of length <= MaxArgs over 17 argument kinds (among them one base name in two directories) on a fixed directory, asserts OnlyBklFilesChange / UntouchedByteForByte / FailingFileMeansNoExec, and every vector is run through the real bklb (symlinked as probeb) or kubectl-bkl with a probe program on PATH that records its argv and the content of file arguments. Random directories (layers in mixed formats) with random vectors of 0-8 arguments are run the same way and validated by TLC; substituted files are decoded by the independent decoder (Python json / PyYAML core schema / tomllib) of the argument\'s extension and compared with the evaluation computed by the specification.',
    'Trusts the independent decoders and the probe script. Arguments that denote standard input (-.yaml) are not generated.',
    'TLA+ wrapper machine + TLC bounded argument-vector model with replay on the real binaries + TLC trace validation', '6 C20'),
 
@@ -77,7 +77,7 @@ BUILT = {
    'Trusts TLC, tv and the independent decoders. Map-rooted, null-free, $-free trees; JSON/YAML tool output.',
    'TLA+ contracts (BklTools!IntersectOK, DiffOK) evaluated by TLC on real tool outputs + bounded universe (MC_Tools) + real migration workflow', '6 C16'),
  'C17': ('model_checking',
-   'bklr is specified exactly: its output is Skeleton(merged layers) (declarative: the $required positions and the containers leading to them). TLC asserts on all 2^5 placements x 7 upper layers that the transcribed algorithm equals the declarative Skeleton, that the skeleton contains only markers and containers, is idempotent, and is non-empty exactly when evaluation fails; every case is run through the real bklr (output, run on its own output) and bkl (required-field error). Random trees with $required at random map values and list entries, 1-3 layers in mixed formats, are run the same way and judged by TLC.',
+   'bklr is specified exactly: its output is Skeleton(merged layers) (declarative: the $required positions and the containers leading to them). TLC asserts on all 2^7 placements (among them markers two levels below a list entry and in a list nested in a list) x 7 upper layers that the transcribed algorithm equals the declarative Skeleton, that the skeleton contains only markers and containers, is idempotent, and is non-empty exactly when evaluation fails; every case is run through the real bklr (output, run on its own output) and bkl (required-field error). Random trees with $required at random map values and list entries, 1-3 layers in mixed formats, are run the same way and judged by TLC.',
    'Trusts TLC, tv and the independent decoders; inputs carry no directives other than $required (as the property states for the agreement with bkl).',
    'TLA+ exact specification (BklTools!Skeleton) + TLC bounded placements with replay on bklr and bkl + trace validation', '6 C17'),
 
